@@ -107,6 +107,11 @@ pub trait Check: Send + Sync + 'static {
     fn exhaustive(&self, _tier: Tier) -> Option<Box<dyn Iterator<Item = Self::Case> + '_>> {
         None
     }
+    /// threads the exhaustive enumeration may be consumed by (1 = in order, on
+    /// the calling thread); only for checks whose `test` is thread-safe
+    fn exhaustive_workers(&self, _tier: Tier) -> usize {
+        1
+    }
     /// number of worker threads the generated cases may be sharded over
     fn workers(&self, _tier: Tier) -> usize {
         16
@@ -344,6 +349,10 @@ impl<C: Check> DynCheck for C {
             .unwrap()
             .insert(name.to_string(), self.rule().to_string());
         cx.stats.lock().unwrap().entry(name.to_string()).or_default();
+        // development aid (never set by a registered command): run one sub-check only
+        if std::env::var("VERIF_ONLY").map(|o| o != name).unwrap_or(false) {
+            return;
+        }
 
         // classify a verdict -> Some(msg) if it is a violation
         let judge = |v: &Verdict| -> Option<String> {
@@ -367,6 +376,55 @@ impl<C: Check> DynCheck for C {
         if let Some(it) = self.exhaustive(cx.tier) {
             let mut n = 0u64;
             let mut failed = false;
+            let par = self.exhaustive_workers(cx.tier).max(1);
+            if par > 1 {
+                // the enumeration is produced here and consumed by `par` threads;
+                // the first violation stops the enumeration (no shrinking: the
+                // enumerated case is the reproduction)
+                let (tx, rx) = std::sync::mpsc::sync_channel::<C::Case>(par * 4);
+                let rx = std::sync::Mutex::new(rx);
+                let stop = AtomicBool::new(false);
+                std::thread::scope(|s| {
+                    for _ in 0..par {
+                        let rx = &rx;
+                        let stop = &stop;
+                        let judge = &judge;
+                        s.spawn(move || loop {
+                            let case = match rx.lock().unwrap().recv() {
+                                Ok(c) => c,
+                                Err(_) => break,
+                            };
+                            if stop.load(Ordering::SeqCst) {
+                                continue;
+                            }
+                            let mut obs = Obs::default();
+                            let v = guarded_test(self, &case, &mut obs);
+                            let cj = serde_json::to_value(&case).unwrap();
+                            cx.record(name, &cj, obs, &v);
+                            if survey_mode() {
+                                survey_log(&cx.property, name, &v, &cj);
+                                continue;
+                            }
+                            if let Some(msg) = judge(&v) {
+                                if !stop.swap(true, Ordering::SeqCst) {
+                                    cx.violation(name, &cj, &msg, "exh");
+                                }
+                            }
+                        });
+                    }
+                    for case in it {
+                        if stop.load(Ordering::SeqCst) {
+                            break;
+                        }
+                        n += 1;
+                        if tx.send(case).is_err() {
+                            break;
+                        }
+                    }
+                    drop(tx);
+                });
+                failed = stop.load(Ordering::SeqCst);
+            } else {
             for case in it {
                 n += 1;
                 let mut obs = Obs::default();
@@ -378,6 +436,7 @@ impl<C: Check> DynCheck for C {
                     failed = true;
                     break;
                 }
+            }
             }
             let mut g = cx.stats.lock().unwrap();
             let st = g.get_mut(name).unwrap();
@@ -692,4 +751,25 @@ pub fn write_evidence(cx: &RunCtx, level: &str, assumptions: &[&str], replayed: 
     let _ = std::fs::create_dir_all(&dir);
     let p = dir.join(format!("{}.json", cx.property));
     std::fs::write(&p, serde_json::to_string_pretty(&doc).unwrap()).expect("write evidence");
+}
+
+/// development aid: append one failing case to target/survey-<ID>.{log,jsonl}
+fn survey_log(property: &str, name: &str, v: &Verdict, case: &serde_json::Value) {
+    use std::io::Write;
+    let (class, msg) = match v {
+        Verdict::Fail(m) => ("UNCLASSIFIED".to_string(), m.clone()),
+        Verdict::Known { id, msg } => (id.clone(), msg.clone()),
+        _ => return,
+    };
+    static LOCK: Mutex<()> = Mutex::new(());
+    let _g = LOCK.lock().unwrap();
+    let p = verif_root().join("target").join(format!("survey-{}.log", property));
+    if let Ok(mut f) = std::fs::OpenOptions::new().create(true).append(true).open(p) {
+        let _ = writeln!(f, "=== {} [{}]\n{}\n", name, class, msg);
+    }
+    let p = verif_root().join("target").join(format!("survey-{}.jsonl", property));
+    if let Ok(mut f) = std::fs::OpenOptions::new().create(true).append(true).open(p) {
+        let doc = json!({"property": property, "check": name, "class": class, "expect": "pass", "message": msg, "case": case});
+        let _ = writeln!(f, "{}", doc);
+    }
 }
